@@ -365,6 +365,43 @@ def pressure_cells_unit(res):
     return res
 
 
+def detect_isa_unit(res):
+    """P: BaseParser.detect_ISA (real code) with re.findall abstract (a list of arbitrary length per pattern): every pattern of both
+    heuristic lists is searched exactly once in the file content; the result is 'x86' if the x86 patterns match more often than the
+    AArch64 ones, 'aarch64' if less often, one of the two on a tie; nothing else is ever returned."""
+    ex = Engine([REPO + "/osaca/parser/base_parser.py"])
+    cnt = {}
+
+    def run():
+        calls = []
+
+        def findall(ex_, so, a, kw):
+            n = z3.Int(f"matches_{len(calls)}")
+            ex_.assume(n >= 0)
+            calls.append((a[0], a[1], n))
+            return SymSeq(n, lambda i: "m")
+
+        ex.abstract["re.findall"] = findall
+        content = OpaqueStr("file content")
+        ex.extra.update(calls=calls, content=content)
+        return ex.call_method("BaseParser", "detect_ISA", None, [content])
+
+    paths = ex.explore(run, [])
+
+    def post(v, p):
+        calls = p.extra["calls"]
+        if any(c[1] is not p.extra["content"] for c in calls) or len(set(c[0] for c in calls)) != len(calls) or len(calls) < 2:
+            return False
+        x86 = sum([c[2] for c in calls if "%" in c[0]], z3.IntVal(0))   # AT&T register names carry the % sigil
+        a64 = sum([c[2] for c in calls if "%" not in c[0]], z3.IntVal(0))
+        if v not in ("x86", "aarch64"):
+            return False
+        return z3.And(z3.Implies(x86 > a64, z3.BoolVal(v == "x86")), z3.Implies(a64 > x86, z3.BoolVal(v == "aarch64")))
+
+    res.add_paths(paths, post, kind="detect_ISA")
+    return res
+
+
 def lcd_list_unit(res):
     """Pb: Frontend.loopcarried_dependencies (the LCD list of the text report) for 0-3 loop-carried dependencies with symbolic
     latencies: exactly one row per dependency (in any order), each showing the first member's line number, the
@@ -422,6 +459,7 @@ def units(tier):
         Unit("C13/full_analysis_dict(fields = line attributes, summary = totals)", dict_unit, "Pb", [(FE, "Frontend.full_analysis_dict"), (FE, "Frontend._selected_port_uops")], decisive=False),
         Unit("C13/combined_view(rows, totals, missing-data branch; cell helpers abstract)", combined_view_unit, "Pb", [(FE, "Frontend.combined_view"), (FE, "Frontend._is_comment")], decisive=False),
         Unit("C13/_get_port_pressure(cell i shows pressure i or is blank)", pressure_cells_unit, "Pb", [(FE, "Frontend._get_port_pressure")], decisive=False),
+        Unit("C13/detect_ISA(majority of register-name matches)", detect_isa_unit, "P", [("osaca/parser/base_parser.py", "BaseParser.detect_ISA")], decisive=False),
         Unit("C13/loopcarried_dependencies(LCD list rows)", lcd_list_unit, "Pb", [(FE, "Frontend.loopcarried_dependencies")], decisive=False),
         Unit("C13/inspect/warning-flags-and-report-wiring", _inspect_unit(), "P", [(OS, "inspect")], decisive=False),
         bounded_unit("C13/report-vs-dict", "c13_report", [(FE, "Frontend.combined_view"), (FE, "Frontend.full_analysis_dict"), (FE, "Frontend.loopcarried_dependencies"),
